@@ -451,6 +451,104 @@ def r01_6(chk, P):
     return k
 
 
+def r01_7(chk, P):
+    chk.rule('R01.7', 'residue type 2 de-interleaving (08-residue.tex: the decoded vector v is distributed as out[j][i] = v[i*ch+j]): in '
+             'every codebook routine that stores through a two-level subscript a[C][I] of its vector-array parameter, with C '
+             'wrapping to 0 at the channel-count parameter and I advancing at the wrap, the cursor starts at the position the '
+             'offset parameter names: I0*ch + C0 == offset and 0 <= C0 < ch, where I0 and C0 are the initial values the function '
+             'assigns outside its loops, evaluated exactly for offset = 0..11 and ch = 1..4 (the format allows a residue to '
+             'begin, and partitions to have sizes, that are not multiples of the channel count)')
+    n = 0
+    for F in P.functions():
+        if not F.file.endswith('codebook.c'):
+            continue
+        pp = [p_ for p_ in F.params if p_.get('t', '').replace(' ', '') in ('float**',)]
+        if not pp:
+            continue
+        aid = pp[0]['id']
+        cur = None
+        for e in F.nodes('assign'):
+            l = F.ex[F.strip_casts(F.ex[e]['c'][0])]
+            if l['k'] != 'sub':
+                continue
+            inner = F.ex[F.strip_casts(l['c'][0])]
+            if inner['k'] != 'sub':
+                continue
+            base = F.ex[F.strip_casts(inner['c'][0])]
+            if base['k'] != 'ref' or base['decl'].get('id') != aid:
+                continue
+
+            def var_of(x):
+                nd = F.ex[F.strip_casts(x)]
+                if nd['k'] == 'un' and nd['op'] in ('post++', 'pre++'):
+                    nd = F.ex[F.strip_casts(nd['c'][0])]
+                return nd['decl'].get('id') if nd['k'] == 'ref' and nd['decl'].get('kind') == 'var' else None
+            C, I = var_of(inner['c'][1]), var_of(l['c'][1])
+            if C is not None and I is not None:
+                cur = (e, C, I)
+        if cur is None:
+            continue
+        e, C, I = cur
+        # the wrap: C = 0 controlled by C == <param>
+        chp = None
+        for a in F.nodes('assign'):
+            nd = F.ex[a]
+            l = F.ex[F.strip_casts(nd['c'][0])]
+            if nd['op'] == '=' and l['k'] == 'ref' and l['decl'].get('id') == C and common.const_val(F, nd['c'][1]) == 0:
+                for c, pol in common.controlling_conditions(F, a):
+                    cn = F.ex[F.strip_casts(c)]
+                    if cn['k'] == 'bin' and cn['op'] == '==' and pol:
+                        x, y = F.ex[F.strip_casts(cn['c'][0])], F.ex[F.strip_casts(cn['c'][1])]
+                        if x['k'] == 'ref' and x['decl'].get('id') == C and y['k'] == 'ref' and y['decl'].get('kind') == 'param':
+                            chp = y['decl']['name']
+        if chp is None:
+            continue
+        inloop = set()
+        for h, body in cfg.loops(F).items():
+            inloop |= body
+
+        def init_of(vid):
+            out = []
+            for q in F.pos:
+                nd = F.ex[q]
+                if nd['k'] == 'decl':
+                    for v in nd['vars']:
+                        if v.get('id') == vid and v.get('init'):
+                            out.append(v['init'])
+                elif nd['k'] == 'assign' and nd['op'] == '=':
+                    l = F.ex[F.strip_casts(nd['c'][0])]
+                    if l['k'] == 'ref' and l['decl'].get('id') == vid and F.pos[q][0] not in inloop:
+                        out.append(nd['c'][1])
+            return out[-1] if out else None
+        c0, i0 = init_of(C), init_of(I)
+        chk.require(c0 is not None and i0 is not None, f'{F.name}: initial values of the de-interleave cursor not found')
+        others = sorted({F.ex[q]['decl']['name'] for x in (c0, i0) for q in F.walk(x)
+                         if F.ex[q]['k'] == 'ref' and F.ex[q]['decl'].get('kind') == 'param' and F.ex[q]['decl']['name'] != chp})
+        offp = others[0] if len(others) == 1 else None
+        if offp is None:
+            ints = [p_['name'] for p_ in F.params if p_['name'] != chp and p_.get('t') in ('long', 'int')]
+            offp = ints[0] if ints else None
+        chk.require(offp is not None, f'{F.name}: the offset parameter was not identified')
+        bad = None
+        for ch in range(1, 5):
+            for off in range(0, 12):
+                try:
+                    ci = common.consteval(P, F, F.strip_casts(c0), {offp: off, chp: ch}, lambda F_, x: F_.s(x))
+                    ii = common.consteval(P, F, F.strip_casts(i0), {offp: off, chp: ch}, lambda F_, x: F_.s(x))
+                except common.NotConst as ex:
+                    raise AnalysisBroken(f'{F.name}: cursor initialiser not evaluable ({ex})')
+                if not (ii * ch + ci == off and 0 <= ci < ch) and bad is None:
+                    bad = (off, ch, ii, ci)
+        n += 1
+        chk.ob('R01.7', F.name, 'deinterleave-cursor-starts-at-offset', bad is None, F.where(e),
+               f'{F.vars[I]["name"]}0 = {F.s(i0)}, {F.vars[C]["name"]}0 = {F.s(c0)}: {F.vars[I]["name"]}0*{chp}+{F.vars[C]["name"]}0 == {offp} for all 48 '
+               f'(offset, ch) pairs' if bad is None else
+               f'{F.vars[I]["name"]}0 = {F.s(i0)}, {F.vars[C]["name"]}0 = {F.s(c0)}: for {offp}={bad[0]}, {chp}={bad[1]} the first value lands at '
+               f'sample {bad[2]} of channel {bad[3]}, the specification puts v[{bad[0]}] at sample {bad[0] // bad[1]} of channel '
+               f'{bad[0] % bad[1]} -- and nothing restricts residue begin / partition size to multiples of the channel count')
+    return n
+
+
 def run(chk, P):
     chk.rule('R01.1', 'for every specification section with a bit layout the sequence of field widths in the TeX source '
              '(document order, consecutive duplicates collapsed, computed widths as V) is a linearisation of the reader '
@@ -467,6 +565,8 @@ def run(chk, P):
     chk.floor('R01.5', 2)
     r01_6(chk, P)
     chk.floor('R01.6', 1)
+    r01_7(chk, P)
+    chk.floor('R01.7', 1)
     chk.notes.append(f'R01.2 compared {ncon} table constants')
     chk.trusted += ['clang 14 front end and constant evaluator', 'the specification sources doc/*.tex of the repository are the oracle',
                     'width extraction from the TeX text (engine/spec.py) recognises the phrasings used in the pinned documents; '
